@@ -62,23 +62,35 @@ theorem checkHeader_ok {e b o : Nat} (hb : b < 4294967296) (ho : o < 4294967296)
 
 /-! ## environment -/
 
-/-- the buffer is placed at an address aligned to `M`, the schema's largest alignment (a power of two ≥ 4) -/
+/-- what the header check of every verify entry point (root or nested) establishes about the buffer it is given: the address is a
+multiple of 4 and the size is at most `UOFFSET_MAX - 8`.  NO alignment of the address beyond 4 is assumed: every wider alignment is
+checked by the verifier on absolute addresses.  `M` bounds the alignments the schema uses (a power of two ≥ 4). -/
 structure Placed (c : Ctx) (M : Nat) : Prop where
   m4 : 4 ∣ M
   mpow : M ∣ 4294967296
-  aligned : c.A % M = 0
+  a4 : c.A % 4 = 0
   size : c.n ≤ 4294967287
 
-theorem Placed.a4 {c M} (P : Placed c M) : c.A % 4 = 0 := mod_of_dvd_mod P.m4 P.aligned
-theorem Placed.al {c M} (P : Placed c M) {a} (h : a ∣ M) : c.A % a = 0 := mod_of_dvd_mod h P.aligned
+theorem Placed.al4 {c M} (P : Placed c M) {a} (h : a ∣ 4) : c.A % a = 0 := mod_of_dvd_mod h P.a4
 theorem Placed.pow {c M} (P : Placed c M) {a} (h : a ∣ M) : a ∣ 4294967296 := Nat.dvd_trans h P.mpow
 
-theorem safe_rel {c : Ctx} {M a addr len : Nat} (P : Placed c M) (ha : a ∣ M)
+/-- positions that are only checked relative to the buffer start (offsets, vtable entries): alignment 1, 2 or 4 -/
+theorem safe_rel {c : Ctx} {M a addr len : Nat} (P : Placed c M) (ha : a ∣ 4)
     (h1 : addr + len ≤ c.n) (h2 : addr % a = 0) : Safe c ⟨addr, len, a⟩ :=
-  ⟨h1, add_mod_zero (P.al ha) h2⟩
+  ⟨h1, add_mod_zero (P.al4 ha) h2⟩
 
 theorem safe4 {c : Ctx} {M addr : Nat} (P : Placed c M) (h1 : addr + 4 ≤ c.n) (h2 : addr % 4 = 0) :
-    Safe c ⟨addr, 4, 4⟩ := safe_rel P P.m4 h1 h2
+    Safe c ⟨addr, 4, 4⟩ := safe_rel P (Nat.dvd_refl 4) h1 h2
+
+/-- the low 32 bits of an address decide its alignment for every power-of-two alignment up to 2^32 -/
+theorem abs_mod {A x a : Nat} (hd : a ∣ 4294967296) : w32 (w32 A + x) % a = (A + x) % a := by
+  rw [w32_mod hd]
+  unfold w32
+  rw [Nat.add_mod, Nat.mod_mod_of_dvd A hd, ← Nat.add_mod]
+
+theorem abs_mod' {A x a : Nat} (hd : a ∣ 4294967296) : (x + w32 A) % a = (A + x) % a := by
+  unfold w32
+  rw [Nat.add_mod, Nat.mod_mod_of_dvd A hd, ← Nat.add_mod, Nat.add_comm]
 
 theorem safe1 {c : Ctx} {addr len : Nat} (h1 : addr + len ≤ c.n) : Safe c ⟨addr, len, 1⟩ :=
   ⟨h1, Nat.mod_one _⟩
@@ -112,7 +124,7 @@ theorem verifyString_safe {c : Ctx} {M : Nat} (P : Placed c M) {b o : Nat} (hb :
 
 theorem verifyStruct_safe {c : Ctx} {M : Nat} (P : Placed c M) {e b o size align : Nat}
     (he : e ≤ c.n) (ho : o < 4294967296) (hsize : size < 4294967296) (hal : align ∣ M)
-    (h : verifyStruct e b o size align = .ok ()) : Safe c ⟨b + o, size, align⟩ := by
+    (h : verifyStruct c e b o size align = .ok ()) : Safe c ⟨b + o, size, align⟩ := by
   unfold verifyStruct at h
   obtain ⟨_, h1, h⟩ := bind_ok h
   obtain ⟨_, h2, h⟩ := bind_ok h
@@ -120,6 +132,8 @@ theorem verifyStruct_safe {c : Ctx} {M : Nat} (P : Placed c M) {e b o size align
   have g1 := guard_ok h1; have g2 := guard_ok h2; have g3 := guard_ok h3; have g4 := guard_ok h
   simp only [Bool.not_eq_true', Bool.or_eq_false_iff, decide_eq_false_iff_not, decide_eq_true_eq] at g1 g2 g3 g4
   have hsz := P.size
+  have hbo : w32 (b + o) = b + o := by unfold w32; omega
+  rw [hbo, abs_mod (P.pow hal)] at g4
   unfold w32 at g2 g3
   have : (b + o + size) % 4294967296 = b + o + size := by
     by_cases hlt : b + o + size < 4294967296
@@ -128,7 +142,7 @@ theorem verifyStruct_safe {c : Ctx} {M : Nat} (P : Placed c M) {e b o size align
       have : (b + o + size) % 4294967296 < 4294967296 := Nat.mod_lt _ (by omega)
       omega
   rw [this] at g3
-  exact safe_rel P hal (by omega) g4
+  exact ⟨by show b + o + size ≤ c.n; omega, g4⟩
 
 /-- what a successful `verifyVector` establishes -/
 theorem verifyVector_ok {c : Ctx} {M : Nat} (P : Placed c M) {b o esz align maxc n : Nat}
@@ -168,7 +182,21 @@ theorem verifyVector_ok {c : Ctx} {M : Nat} (P : Placed c M) {b o esz align maxc
     · simp only [hz, if_true, Nat.zero_mul]
       exact safe1 (by omega)
     · simp only [hz, if_false] at g3 ⊢
-      exact safe_rel P hal hrange g3.1
+      have g31 := g3.1
+      rw [abs_mod (P.pow hal)] at g31
+      exact ⟨hrange, g31⟩
+
+/-- a verified vector read as bytes (the `[ubyte]` view of a nested buffer field) -/
+theorem vectorAcc_bytes_safe {c : Ctx} {M : Nat} (P : Placed c M) {v n : Nat} (hn : n = r32 c v)
+    (hr : v + 4 + n * 1 ≤ c.n) (h4 : v % 4 = 0) : ∀ a ∈ vectorAcc c v 1 1, Safe c a := by
+  intro a ha
+  unfold vectorAcc at ha
+  simp only [List.mem_cons, List.mem_nil_iff, or_false] at ha
+  rcases ha with rfl | rfl
+  · exact safe4 P (by omega) h4
+  · have e : (if r32 c v = 0 then 1 else 1) = 1 := by split <;> rfl
+    rw [e, ← hn]
+    exact safe1 (by omega)
 
 /-- the string loop: every element slot and every string it points to -/
 theorem verifyStrings_safe {c : Ctx} {M : Nat} (P : Placed c M) :
